@@ -724,6 +724,15 @@ def alphabet(name):
                 lambda i, r: ("hop", last(r), 7, [4]),              # circuit becomes ready
                 lambda i, r: ("close", 0),                          # circuit closes
                 lambda i, r: ("rm", 0)]                             # circuit removed
+    if name == "C":    # real Community objects sharing one TunnelEndpoint: several overlays per prefix, explicit toggles
+        return [lambda i, r: ("overlay", PA[2:], True),             # overlay with prefix PA loaded with anonymize=True
+                lambda i, r: ("overlay", PA[2:], False),            # the same community id loaded plain (another pseudonym)
+                lambda i, r: ("overlay", PB[2:], False),            # an unrelated plain overlay
+                lambda i, r: ("send", 1, PA + bytes([i])),
+                lambda i, r: ("send", 2, PB + bytes([i])),
+                lambda i, r: ("settc", True, 1),
+                lambda i, r: ("anon", PA, True),
+                lambda i, r: ("anon", PA, False)]
     if name == "B":    # 2-hop circuits, creation failures, re-attachment with another length
         return [lambda i, r: ("send", 1, PA + bytes([i])),
                 lambda i, r: ("anon", PA, True),
@@ -774,20 +783,22 @@ def exhaustive_tier(ctx: Ctx, name: str, k: int, depth: int, use_model: bool, pl
                     if len(ctx.failures) >= 20:
                         return n
                     digests.append(None)
+                    impl = None
                 else:
-                    digests.append(str(zlib.adler32((reply + " | " + real.dump()).encode())))
-                words.append((ops, reply, real))
+                    impl = reply + " | " + real.dump()
+                    digests.append(str(zlib.adler32(impl.encode())))
+                real.close()
+                words.append((ops, impl))
             if drv is not None and len(ctx.disagreements) < 5:
                 line = f"enum {name} {k} 2 {d} " + ("".join(DIGITS[x] for x in pre) or "-")
                 got = drv.ask(line).split(" ")
                 if len(got) != len(digests):
                     ctx.disagree(f"model enumerates {len(got)} words for `{line}`, harness {len(digests)}", {"line": line})
                     continue
-                for g, w, (ops, reply, real) in zip(got, digests, words):
+                for g, w, (ops, impl) in zip(got, digests, words):
                     if w is not None and g != w:
                         seq = "seq 2 " + ";".join(line_of(o).replace(" ", "_") for o in ops)
                         model = drv.ask(seq)
-                        impl = reply + " | " + real.dump()
                         ctx.disagree(f"model {model!r} != implementation {impl!r} on `{seq}`",
                                      {"kind": "ops", "cap": 2, "ops": [op_to_json(o) for o in ops], "model": model,
                                       "impl": impl})
@@ -831,9 +842,23 @@ def overlay_tier(ctx: Ctx, n_scen: int, use_model: bool):
         expect.append("ok")
         start = len(lines)
         try:
-            for j in range(rng.choice([1, 2, 2, 3])):
-                cid = bytes([0x50 + j]) + bytes(rng.randrange(256) for _ in range(19))
-                want = rng.random() < 0.6
+            cids = {}
+            for j in range(rng.choice([1, 2, 2, 3, 4])):
+                if cids and rng.random() < 0.4:
+                    cid = rng.choice(list(cids))        # a second instance under the same community id (same prefix)
+                else:
+                    cid = bytes([0x50 + j]) + bytes(rng.randrange(256) for _ in range(19))
+                want = rng.random() < 0.55
+                if cid in cids:
+                    ctx.count("overlay:shared prefix, %s after %s" % ("anonymized" if want else "plain",
+                                                                       "+".join("anonymized" if w else "plain"
+                                                                                for w in cids[cid])))
+                if rng.random() < 0.12:
+                    on = rng.random() < 0.7             # explicit toggle for that prefix before the overlay is loaded
+                    run_history(ctx, real, [("anon", bytes([0, 2]) + cid, on)], lines, expect, record)
+                    ctx.count("overlay:explicit set_anonymity(%s) before load of %s overlay" %
+                              (on, "anonymized" if want else "plain"))
+                cids.setdefault(cid, []).append(want)
                 run_history(ctx, real, [("overlay", cid, want)], lines, expect, record)
                 ctx.count("overlay:anonymize=%s" % want)
                 if rng.random() < 0.7 and j == 0:
@@ -1130,6 +1155,7 @@ def run(ctx: Ctx):
     exhaustive_tier(ctx, "T", 8, ctx.scale(5, 7), ctx.model_ok)    # the property's own event list (depth 7 in thorough)
     exhaustive_tier(ctx, "A", 10, ctx.scale(5, 6), ctx.model_ok)
     exhaustive_tier(ctx, "B", 12, ctx.scale(4, 5), ctx.model_ok)
+    exhaustive_tier(ctx, "C", 8, ctx.scale(4, 5), ctx.model_ok)    # real overlays, shared prefixes
     random_tier(ctx, ctx.scale(1200, 15000), ctx.model_ok)
     overlay_tier(ctx, ctx.scale(150, 2000), ctx.model_ok)
     lifecycle_tier(ctx, ctx.scale(250, 4000), ctx.model_ok)
@@ -1137,6 +1163,8 @@ def run(ctx: Ctx):
 
 def search(ctx: Ctx, reason: str):
     exhaustive_tier(ctx, "A", 10, 5, False)
+    if not ctx.failures:
+        exhaustive_tier(ctx, "C", 8, 4, False)
     if not ctx.failures:
         exhaustive_tier(ctx, "B", 12, 4, False)
     if not ctx.failures:
